@@ -140,8 +140,9 @@ def h_normalize(wp, node, args, callee):
 
 
 def h_reduce(wp, node, args, callee):
-    """nano::program::reduce(A, b) (src/program/util.cpp; Eigen::FullPivLU, not walked): ASSUMED contract: (A, b) become some (A_r, b_r) with
-    wp.reduced_rows <= p rows and the same columns (the same solution set, which no obligation here uses); untouched without rows"""
+    """nano::program::reduce(A, b) (src/program/util.cpp) by the clauses of reduce_vcs / reduce.reduce1_vcs: (A, b) are untouched without rows or when
+    the scenario rank wp.reduced_rows equals p, else they become some (A_r, b_r) with wp.reduced_rows < p rows and the same columns (that these span
+    the same solution set is the ASSUMED contract of Eigen::FullPivLU in its default configuration; no obligation here uses it)"""
     kA, kb = wp.key_of(args[0]), wp.key_of(args[1])
     A, b = wp.env.get(kA), wp.env.get(kb)
     if not isinstance(A, MV) or not isinstance(b, AV) or A.rows != len(b.c):
@@ -151,6 +152,10 @@ def h_reduce(wp, node, args, callee):
     pr = wp.reduced_rows
     if not (1 <= pr <= A.rows):
         raise Unsupported(f'{wp.name}: reduce to {pr} rows')
+    if pr == A.rows:
+        # [A | b] of full row rank: (A, b) are handed back unchanged (obligations `full rank` of reduce.reduce1_vcs and of reduce_vcs below)
+        wp.reduced = (kA, kb)
+        return V('true', 'Bool', 'bool')
     n = A.cols
     wp.env[kA] = MV([[wp.leaf(f'Ar_{r}_{c}', 'e') for c in range(n)] for r in range(pr)])
     wp.env[kb] = AV([wp.leaf('br', r) for r in range(pr)], str(pr))
@@ -254,6 +259,29 @@ def held(wp):
                 G=[list(r) for r in E['self.m_G'].m], h=list(E['self.m_h'].c))
 
 
+def run_update(wp, head, n, q, m, path):
+    """program_t::update<head..> walked in the environment `wp` already holds (the program the constructor built), at arbitrary (x, u, v) and an
+    arbitrary previous state; returns (function, env prefix of the state, (x, u, v))"""
+    fn = astload.find_definition(TU, FLT, 'update', lambda d: (astload.template_args(d) or [''])[0].startswith(head))
+    kx, ku, kv, kmiu, kst = [k for k, _ in wp.bind_params(fn)]
+    x, u, v = list(wp.vec(kx, 'x', n).c), list(wp.vec(ku, 'u', m).c), list(wp.vec(kv, 'v', q).c)
+    wp.scalar(kmiu, 'miu')
+    wp.scalar(kst + '.m_fx', 'fx0'), wp.scalar(kst + '.m_eta', 'eta0')
+    wp.vec(kst + '.m_rdual', 'rdual0', n), wp.vec(kst + '.m_rprim', 'rprim0', q), wp.vec(kst + '.m_rcent', 'rcent0', m)
+    nob = len(wp.obligations)
+    wp.post = lambda w, rv: []
+    wp.run(fn, path)
+    del wp.obligations[nob:]                                 # the walk's own obligations are those of residuals.update_vcs
+    return fn, kst, (x, u, v)
+
+
+def reduced_rows(wp, P, n, p, pr):
+    """(A_r, b_r): the caller's own rows when there are no equalities or [A | b] has full row rank (pr == p), else SOME pr rows"""
+    if not p or pr == p:
+        return P['A'], P['b']
+    return [[wp.leaf(f'Ar_{r}_{c}', 'e') for c in range(n)] for r in range(pr)], [wp.leaf('br', r) for r in range(pr)]
+
+
 def ctor_vcs(n, p, m, hasQ, pr, info):
     path = astload.REPO + '/' + TU
     wp, ctor, P = walk_ctor(n, p, m, hasQ, pr)
@@ -268,8 +296,7 @@ def ctor_vcs(n, p, m, hasQ, pr, info):
     out.append(g.vc('reduce() is applied to the equality pair (m_A, m_b), before it is scaled', [], 'true' if red_ok else 'false', line=line))
     if not red_ok:
         return out + [g.canary(props)]
-    Ar = [[wp.leaf(f'Ar_{r}_{c}', 'e') for c in range(n)] for r in range(pr)] if p else P['A']
-    br = [wp.leaf('br', r) for r in range(pr)] if p else P['b']
+    Ar, br = reduced_rows(wp, P, n, p, pr)
     by = {(c['keyA'], c['keyb']): c for c in calls}
     want = [('objective', 'self.m_Q', 'self.m_c'), ('equalities', 'self.m_A', 'self.m_b'), ('inequalities', 'self.m_G', 'self.m_h')]
     ok = len(calls) == 3 and all((a, b) in by for _, a, b in want)
@@ -309,16 +336,7 @@ def ctor_vcs(n, p, m, hasQ, pr, info):
         out.append(g.vc('KKT matrix buffer: the off-diagonal blocks of m_lmat are m_A\' and m_A, the lower-right block is 0', [], conj(cl), line=line))
     # ---- program_t::update on the program just built: what the caller is told
     for which, head in residuals.UPDATE_HEADS[:1]:
-        fn = astload.find_definition(TU, FLT, 'update', lambda d: (astload.template_args(d) or [''])[0].startswith(head))
-        kx, ku, kv, kmiu, kst = [k for k, _ in wp.bind_params(fn)]
-        x, u, v = list(wp.vec(kx, 'x', n).c), list(wp.vec(ku, 'u', m).c), list(wp.vec(kv, 'v', q).c)
-        wp.scalar(kmiu, 'miu')
-        wp.scalar(kst + '.m_fx', 'fx0'), wp.scalar(kst + '.m_eta', 'eta0')
-        wp.vec(kst + '.m_rdual', 'rdual0', n), wp.vec(kst + '.m_rprim', 'rprim0', q), wp.vec(kst + '.m_rcent', 'rcent0', m)
-        nob = len(wp.obligations)
-        wp.post = lambda w, rv: []
-        wp.run(fn, path)
-        del wp.obligations[nob:]                                 # the walk's own obligations are those of residuals.update_vcs
+        fn, kst, (x, u, v) = run_update(wp, head, n, q, m, path)
         S = lambda f: wp.env[f'{kst}.{f}']
         callers = dict(Q=P['Q'], c=P['c'], A=Ar, b=br, G=P['G'], h=P['h'])
         ut = [f'(* (/ {mufx} {dG}) {t})' for t in u]
@@ -362,11 +380,16 @@ def h_stack(wp, node, args, callee):
 
 
 def h_reduce1(wp, node, args, callee):
-    """::reduce(Ab) (Eigen::FullPivLU): ASSUMED contract: Ab becomes SOME matrix with wp.reduced_rows <= rows rows and the same columns"""
+    """::reduce(Ab) by the clauses of reduce.reduce1_vcs: untouched when the scenario rank equals the number of rows, else SOME matrix with
+    wp.reduced_rows < rows rows and the same columns"""
     key = wp.key_of(args[0])
     M = wp.env.get(key)
     if not isinstance(M, MV) or not (1 <= wp.reduced_rows <= M.rows):
         raise Unsupported(f'{wp.name}: ::reduce on {key}')
+    if wp.reduced_rows == M.rows:
+        # full row rank: Ab is left untouched (obligation `full rank` of reduce.reduce1_vcs)
+        wp.reduce1_on = getattr(wp, 'reduce1_on', []) + [(key, [list(r) for r in M.m])]
+        return V('0', 'Int', 'int')
     wp.env[key] = MV([[wp.leaf(f'Abr_{r}_{c}', 'e') for c in range(M.cols)] for r in range(wp.reduced_rows)])
     wp.ver[key] = wp.ver.get(key, 0) + 1
     wp.reduce1_on = getattr(wp, 'reduce1_on', []) + [(key, [list(r) for r in M.m])]
@@ -400,11 +423,14 @@ def reduce_vcs(n, p, pr, info):
         stacked = len(on) == 1 and on[0][1] == [list(row) + [y] for row, y in zip(A0, b0)]
         out.append(g.vc('[A | b] is decomposed as ONE matrix (the right-hand side takes part in the rank decision), exactly once', [],
                         'true' if stacked else 'false', line=line))
-        Abr = [[wp.leaf(f'Abr_{i}_{j}', 'e') for j in range(n + 1)] for i in range(pr)]
+        Abr = [[wp.leaf(f'Abr_{i}_{j}', 'e') for j in range(n + 1)] for i in range(pr)] if pr < p else [list(row) + [y] for row, y in zip(A0, b0)]
         shape = (A1.rows, A1.cols if A1.rows else n, len(b1.c)) == (pr, n, pr)
         split = conj([f'(= {A1.m[i][j]} {Abr[i][j]})' for i in range(pr) for j in range(n)] + [f'(= {b1.c[i]} {Abr[i][n]})' for i in range(pr)]) if shape else 'false'
         out.append(g.vc('consistent split: A\' is the first n columns and b\' the LAST column of the SAME reduced matrix, row for row; returns true', [],
                         f'(and {r} {split})', line=line))
+        if pr == p:
+            out.append(g.vc('full rank: [A | b] of full row rank: (A, b) are handed back unchanged (the caller\'s own rows)', [],
+                            conj([eqs([t for r_ in A1.m for t in r_], [t for r_ in A0 for t in r_]), eqs(b1.c, b0)]) if shape else 'false', line=line))
     out.append(g.canary())
     return out
 
